@@ -7,7 +7,7 @@
    delivered timer t — including one the code has already stopped or replaced (stale fire). *)
 From Coq Require Import ZArith NArith List Bool.
 From Verif Require Import Base.Word Model.Fsm Model.Lcp Model.Ipcp Model.Ipv6cp Model.FsmSpec Model.FsmCheck
-                          Proofs.FsmProofs.
+                          Model.FsmOpts Proofs.FsmProofs Proofs.FsmOptProofs.
 Import ListNotations.
 Local Open Scope N_scope.
 
@@ -121,6 +121,166 @@ Example C11_T5_ack_example :
   = [packet 2 3 [3;6;10;0;0;9]].
 Proof. exact ex_ipcp_ack_assigned. Qed.
 
+(* ------------------------------------------------------------------------------------------- T4x
+   T4 at VALUE level, exact, for ALL option lists.  Model/FsmOpts.v states each protocol's policy as
+   predicates over one option: rejectable (unknown type / never negotiated / wrong length),
+   offending (well-formed but the value is not acceptable: MRU outside [64,1492], magic number zero
+   or our own, address zero or not the assigned one, DNS zero with a server configured, interface
+   identifier zero or our own) and acceptable (the rest).  In any state, for any received bytes that
+   parse as a Configure-Request with options [opts]: the first packet sent is the reply, carries the
+   request's identifier, no other Ack/Nak/Reject is sent, and
+     some option rejectable          => Configure-Reject listing EXACTLY the rejectable options;
+     else every option acceptable    => Configure-Ack repeating the request's option bytes;
+     else                            => Configure-Nak with one entry per offending option, in order,
+                                        same type, carrying the coded suggestion ([*_suggests]: MRU 64
+                                        below the range and 1492 above it; the assigned address; the
+                                        configured DNS server; 4 / 8 bytes for magic / interface id).
+   [offenders f off x opts] pairs each offending option with the option state in which the loop
+   examines it (a loopback magic number / colliding interface id regenerates ours in mid-list). *)
+Theorem C11_T4_lcp_reply_exact : forall s d i data opts,
+  parse_pkt d = Some (1, i, data) -> parse_opts data = Some opts ->
+  exists p rest, sent lcp_procs s (ERecv d) = p :: rest /\ pi p = i /\
+    forallb (fun q => negb (in_range 2 (pc q) 4)) rest = true /\
+    (if existsb lcp_rejectable opts then pc p = 4 /\ pd p = ser_opts (filter lcp_rejectable opts)
+     else if forallb (lcp_acceptable (lx_magic (f_x s))) opts then pc p = 2 /\ pd p = ser_opts opts
+     else pc p = 3 /\ exists l, l <> [] /\ pd p = ser_opts l /\
+          Forall2 (fun xo o' => lcp_suggests (snd xo) o' = true) (offenders lcp_opt lcp_off (f_x s) opts) l).
+Proof. exact lcp_reply_exact. Qed.
+Print Assumptions C11_T4_lcp_reply_exact.
+
+Theorem C11_T4_ipcp_reply_exact : forall s d i data opts,
+  parse_pkt d = Some (1, i, data) -> parse_opts data = Some opts ->
+  let x := f_x s in
+  exists p rest, sent ipcp_procs s (ERecv d) = p :: rest /\ pi p = i /\
+    forallb (fun q => negb (in_range 2 (pc q) 4)) rest = true /\
+    (if existsb (ipcp_rejectable x) opts then pc p = 4 /\ pd p = ser_opts (filter (ipcp_rejectable x) opts)
+     else if forallb (ipcp_acceptable x) opts then pc p = 2 /\ pd p = ser_opts opts
+     else pc p = 3 /\ exists l, l <> [] /\ pd p = ser_opts l /\
+          Forall2 (fun o o' => ipcp_suggests x o o' = true) (filter (ipcp_offending x) opts) l).
+Proof. exact ipcp_reply_exact. Qed.
+Print Assumptions C11_T4_ipcp_reply_exact.
+
+Theorem C11_T4_ipv6cp_reply_exact : forall s d i data opts,
+  parse_pkt d = Some (1, i, data) -> parse_opts data = Some opts ->
+  exists p rest, sent v6_procs s (ERecv d) = p :: rest /\ pi p = i /\
+    forallb (fun q => negb (in_range 2 (pc q) 4)) rest = true /\
+    (if existsb v6_rejectable opts then pc p = 4 /\ pd p = ser_opts (filter v6_rejectable opts)
+     else if forallb (v6_acceptable (vx_cfg (f_x s))) opts then pc p = 2 /\ pd p = ser_opts opts
+     else pc p = 3 /\ exists l, l <> [] /\ pd p = ser_opts l /\
+          Forall2 (fun xo o' => v6_suggests (snd xo) o' = true) (offenders v6_opt v6_off (f_x s) opts) l).
+Proof. exact v6_reply_exact. Qed.
+Print Assumptions C11_T4_ipv6cp_reply_exact.
+
+(* ... and what the request does to the automaton is decided by the same predicates alone: the
+   "we acknowledged the peer's latest request" bit becomes [ok]; from Ack-Rcvd the layer opens iff
+   every option is acceptable; an acknowledged request changes none of our own options. *)
+Theorem C11_T4_lcp_request_effect : forall s d i data opts,
+  parse_pkt d = Some (1, i, data) -> parse_opts data = Some opts ->
+  let ok := negb (existsb lcp_rejectable opts) && forallb (lcp_acceptable (lx_magic (f_x s))) opts in
+  let s' := next lcp_procs s (ERecv d) in
+  (ok = true -> f_x s' = f_x s) /\
+  g_we s' = ok /\
+  (f_st s = AckRcvd -> f_st s' = if ok then Opened else AckRcvd) /\
+  (f_st s = ReqSent -> f_st s' = if ok then AckSent else ReqSent) /\
+  (f_st s = AckSent -> f_st s' = if ok then AckSent else ReqSent) /\
+  (f_st s = Opened -> f_st s' = if ok then AckSent else ReqSent) /\
+  (f_st s = Stopped -> f_st s' = if ok then AckSent else ReqSent).
+Proof. exact lcp_rcr_effect. Qed.
+Print Assumptions C11_T4_lcp_request_effect.
+
+Theorem C11_T4_ipcp_request_effect : forall s d i data opts,
+  parse_pkt d = Some (1, i, data) -> parse_opts data = Some opts ->
+  let ok := negb (existsb (ipcp_rejectable (f_x s)) opts) && forallb (ipcp_acceptable (f_x s)) opts in
+  let s' := next ipcp_procs s (ERecv d) in
+  (ok = true -> f_x s' = f_x s) /\
+  g_we s' = ok /\
+  (f_st s = AckRcvd -> f_st s' = if ok then Opened else AckRcvd) /\
+  (f_st s = ReqSent -> f_st s' = if ok then AckSent else ReqSent) /\
+  (f_st s = AckSent -> f_st s' = if ok then AckSent else ReqSent) /\
+  (f_st s = Opened -> f_st s' = if ok then AckSent else ReqSent) /\
+  (f_st s = Stopped -> f_st s' = if ok then AckSent else ReqSent).
+Proof. exact ipcp_rcr_effect. Qed.
+Print Assumptions C11_T4_ipcp_request_effect.
+
+Theorem C11_T4_ipv6cp_request_effect : forall s d i data opts,
+  parse_pkt d = Some (1, i, data) -> parse_opts data = Some opts ->
+  let ok := negb (existsb v6_rejectable opts) && forallb (v6_acceptable (vx_cfg (f_x s))) opts in
+  let s' := next v6_procs s (ERecv d) in
+  (ok = true -> f_x s' = f_x s) /\
+  g_we s' = ok /\
+  (f_st s = AckRcvd -> f_st s' = if ok then Opened else AckRcvd) /\
+  (f_st s = ReqSent -> f_st s' = if ok then AckSent else ReqSent) /\
+  (f_st s = AckSent -> f_st s' = if ok then AckSent else ReqSent) /\
+  (f_st s = Opened -> f_st s' = if ok then AckSent else ReqSent) /\
+  (f_st s = Stopped -> f_st s' = if ok then AckSent else ReqSent).
+Proof. exact v6_rcr_effect. Qed.
+Print Assumptions C11_T4_ipv6cp_request_effect.
+
+(* the predicate [acceptable] by which the MONITOR judges the implementation's Naks and Rejects
+   (clause 3) is this same policy: evaluated with our own magic number / interface identifier before
+   ([a]) and after ([b]) the event for LCP / IPv6CP, and with the session's assignment for IPCP *)
+Theorem C11_T4_monitor_policy_lcp : forall k a b o, mk_kind k = 0 ->
+  acceptable k a b o = lcp_acceptable (be_val (firstn 4 a)) o && lcp_acceptable (be_val (firstn 4 b)) o.
+Proof. exact lcp_acceptable_monitor. Qed.
+Print Assumptions C11_T4_monitor_policy_lcp.
+Theorem C11_T4_monitor_policy_ipcp : forall x k a b o, ipcp_mcfg x k -> acceptable k a b o = ipcp_acceptable x o.
+Proof. exact ipcp_acceptable_monitor. Qed.
+Print Assumptions C11_T4_monitor_policy_ipcp.
+Theorem C11_T4_monitor_policy_ipv6cp : forall k a b o, mk_kind k = 2 ->
+  acceptable k a b o = v6_acceptable (be_val (firstn 8 a)) o && v6_acceptable (be_val (firstn 8 b)) o.
+Proof. exact v6_acceptable_monitor. Qed.
+Print Assumptions C11_T4_monitor_policy_ipv6cp.
+
+(* boundary values: MRU 64 (the minimum) in Ack-Rcvd is acknowledged unchanged and opens the layer;
+   63 is Nak'ed with 64 and does not; 1493 is Nak'ed with 1492 *)
+Example C11_T4_mru_min_opens :
+  let s := run lcp_procs (init lx0) [EOpen; EUp; ERecv [2;1;0;4]] in
+  f_st s = AckRcvd /\
+  sent lcp_procs s (ERecv [1;9;0;8;1;4;0;64]) = [packet 2 9 [1;4;0;64]] /\
+  f_st (next lcp_procs s (ERecv [1;9;0;8;1;4;0;64])) = Opened.
+Proof. exact ex_lcp_mru_min_opens. Qed.
+Example C11_T4_mru_below_min_nak :
+  let s := run lcp_procs (init lx0) [EOpen; EUp; ERecv [2;1;0;4]] in
+  sent lcp_procs s (ERecv [1;9;0;8;1;4;0;63]) = [packet 3 9 [1;4;0;64]] /\
+  f_st (next lcp_procs s (ERecv [1;9;0;8;1;4;0;63])) = AckRcvd.
+Proof. exact ex_lcp_mru_below_min_nak. Qed.
+Example C11_T4_mru_above_max_nak :
+  sent lcp_procs (run lcp_procs (init lx0) [EOpen; EUp]) (ERecv [1;9;0;8;1;4;5;213]) = [packet 3 9 [1;4;5;212]].
+Proof. exact ex_lcp_mru_above_max_nak. Qed.
+Example C11_T4_offenders_threaded :
+  map snd (offenders lcp_opt lcp_off lx0 [mkopt 1 [0;63]; mkopt 5 [17;34;51;68]; mkopt 7 []; mkopt 1 [5;213]])
+  = [mkopt 1 [0;63]; mkopt 5 [17;34;51;68]; mkopt 1 [5;213]].
+Proof. exact ex_lcp_offenders_threaded. Qed.
+Example C11_T4_ipcp_wrong_address_nak :
+  sent ipcp_procs (run ipcp_procs (init ix0) [EOpen; EUp]) (ERecv [1;3;0;10;3;6;10;0;0;10])
+  = [packet 3 3 [3;6;10;0;0;9]].
+Proof. exact ex_ipcp_wrong_address_nak. Qed.
+
+(* ------------------------------------------------------------------------------------------- T5h
+   T5 over ALL histories (guard: an address was assigned when the machine was created; no pool):
+   no event — Down/Up cycles, Close/Open, Naks, Rejects, expiries — changes the assignment, and
+   after any event sequence a Configure-Ack is sent only in reply to a well-formed Configure-Request,
+   repeats its options, and every IP-Address option in it is the assigned address. *)
+Theorem C11_T5_ipcp_assignment_invariant : forall evs s,
+  ix_peer (f_x (run ipcp_procs s evs)) = ix_peer (f_x s) /\
+  ix_dns1 (f_x (run ipcp_procs s evs)) = ix_dns1 (f_x s) /\
+  ix_dns2 (f_x (run ipcp_procs s evs)) = ix_dns2 (f_x s).
+Proof. exact ipcp_assignment_invariant. Qed.
+Print Assumptions C11_T5_ipcp_assignment_invariant.
+
+Theorem C11_T5_ipcp_acks_only_assigned_all_histories_partial : forall x a evs d p,
+  ix_peer x = Some a ->
+  In p (sent ipcp_procs (run ipcp_procs (init x) evs) (ERecv d)) -> pc p = 2 ->
+  exists i data opts, parse_pkt d = Some (1, i, data) /\ parse_opts data = Some opts /\
+    pd p = ser_opts opts /\ forall o, In o opts -> ot o = 3 -> od o = a.
+Proof. exact ipcp_acks_only_assigned_histories. Qed.
+Print Assumptions C11_T5_ipcp_acks_only_assigned_all_histories_partial.
+
+Example C11_T5_assignment_survives_down_up :
+  let s := run ipcp_procs (init ix0) [EOpen; EUp; ERecv [1;3;0;10;3;6;10;0;0;9]; ERecv [2;1;0;4]; EDown; EUp] in
+  f_st s = ReqSent /\ sent ipcp_procs s (ERecv [1;4;0;10;3;6;10;0;0;10]) = [packet 3 4 [3;6;10;0;0;9]].
+Proof. exact ex_ipcp_assignment_survives_down_up. Qed.
+
 (* T5 without the guard is REFUTED: with no address assigned (config.PeerIP = nil) any non-zero
    address is acknowledged — known finding K11c (marker 1103). *)
 Theorem C11_T5_ipcp_acks_only_assigned_refuted :
@@ -185,6 +345,13 @@ Theorem C11_T6p_silent_peer_terminates_partial : forall X (P : procs X) (s : fsm
   terminal (f_st (silent P n s)) = true /\ (count_req (silent_sent P n s) <= Z.to_nat (f_rc s))%nat.
 Proof. exact @silent_peer_terminates_live. Qed.
 Print Assumptions C11_T6p_silent_peer_terminates_partial.
+
+(* the guard is the weakest possible: silence ends in a state without timer IF AND ONLY IF the state is
+   live — so K11b is exactly the set of steps that lose [live] (marker 1102), no more and no less *)
+Theorem C11_T6p_silence_terminates_iff_live : forall X (P : procs X) (s : fsm X),
+  (exists n, terminal (f_st (silent P n s)) = true) <-> live s = true.
+Proof. exact @silence_terminates_iff_live. Qed.
+Print Assumptions C11_T6p_silence_terminates_iff_live.
 
 (* ... and the guard can only be lost at the sites of K11b: a step from a live state to a state
    that is not live is the receipt of a Configure-Ack/Nak/Reject with the identifier of our latest
